@@ -212,10 +212,9 @@ func buildRectFilter(ctx context.Context, dvReader index.DocValueReader,
 	var lons, lats []float64
 	var found bool
 	dvVisitor := func(_ string, term []byte) {
-		if found {
-			// avoid redundant work if already found
-			return
-		}
+		// every value of the document has to be collected: a document
+		// matches if any of its points lies in the shape, and which point
+		// is visited first depends on the index implementation
 		// only consider the values which are shifted 0
 		prefixCoded := numeric.PrefixCoded(term)
 		shift, err := prefixCoded.Shift()
